@@ -659,6 +659,89 @@ fn check_trivia(case: &HistCase, popts: u32, values: &[V], gaps_a: &[GapBytes], 
     termination_checks(case, &b, &rb, mon);
 }
 
+/// O17.5, the rejection clause of C17: ill-formed UTF-8 inside a string, symbol
+/// or character is rejected (or, for Emacs unibyte strings, comes back as bytes).
+/// Stated so that it needs no second tokenizer: if the text holds no `;` at all
+/// (so no comment can hide bytes) and the slice reader reads it to its end without
+/// a single error, every byte of it was whitespace or part of a token; bytes that
+/// are not UTF-8 cannot be whitespace, punctuation or digits, so they were inside a
+/// string, symbol, keyword or character. Then either some returned value is a byte
+/// string, or ill-formed input was accepted as text. (Every returned str has
+/// already been re-validated by M17.2, so the bytes were not copied verbatim:
+/// they were decoded into something - which is exactly what must not happen.)
+fn check_rejection(case: &HistCase, input: &[u8], mon: &mut Mon) {
+    if std::str::from_utf8(input).is_ok() || input.contains(&b';') || input.len() > 4096 {
+        return;
+    }
+    // Not judged: a backslash directly in front of a raw non-ASCII byte anywhere but
+    // in a character literal (`#\`, `?\`). The Emacs string reader copies the byte
+    // after a backslash as it is, so `"` C3 `\` B1 `"` reads as "ñ": a well-formed
+    // str out of bytes that are not UTF-8 as they stand. Whether that input is
+    // "not valid UTF-8 inside a string" or an escape that happens to complete a
+    // character is a matter of reading; the first version of this oracle reported
+    // it on the unchanged tree, and it was narrowed rather than lexpr changed.
+    let escaped_high = input.windows(2).enumerate().any(|(k, w)| w[0] == b'\\' && w[1] >= 0x80 && !(k > 0 && matches!(input[k - 1], b'#' | b'?')));
+    if escaped_high {
+        mon.count("c17.rejection_not_judged_escaped_byte");
+        return;
+    }
+    // Not judged either: bytes inside an Emacs Lisp string. There byte-valued
+    // escapes (`\200`, `\x80`) and raw bytes are mixed by design (unibyte versus
+    // multibyte strings), and `"` C3 `\200` `"` reads as "À" - again a well-formed
+    // str, again reported by the first version on the unchanged tree.
+    let bad_at = match std::str::from_utf8(input) {
+        Err(e) => e.valid_up_to(),
+        Ok(_) => 0,
+    };
+    let lex = text::lex_states(input);
+    let st = lex.get(bad_at).copied().unwrap_or(text::Lex::End);
+    if opts::parse_fields(case.opts).string == 1 && st.name().starts_with("string") {
+        mon.count("c17.rejection_not_judged_elisp_string");
+        return;
+    }
+    let run = exec(case.opts, &Source::Slice, input, &[], Some(Op::NextValue), mon);
+    if run.abnormal || !run.reached_end || run.steps.iter().any(|s| s.res.is_err()) {
+        mon.count("c17.rejection_rejected_or_inconclusive");
+        return;
+    }
+    fn has_bytes(v: &Value) -> bool {
+        let mut stack = vec![v];
+        while let Some(v) = stack.pop() {
+            match v {
+                Value::Bytes(_) => return true,
+                Value::Cons(c) => {
+                    for pair in c.iter() {
+                        stack.push(pair.car());
+                        if !matches!(pair.cdr(), Value::Cons(_) | Value::Null) {
+                            stack.push(pair.cdr());
+                        }
+                    }
+                }
+                Value::Vector(items) => stack.extend(items.iter()),
+                _ => {}
+            }
+        }
+        false
+    }
+    if run.steps.iter().any(|s| matches!(&s.res, Ok(Some(v)) if has_bytes(v))) {
+        mon.count("c17.rejection_bytes_returned");
+        return;
+    }
+    mon.count("c17.rejection_violations_seen");
+    mon.violate(
+        "C17",
+        "O17.5",
+        format!("ill-formed UTF-8 is accepted instead of rejected (in {})", st.name()),
+        format!(
+            "opts[{}]: the slice reader read {:?} to its end without an error and returned no byte string, although the bytes at offset {} are not UTF-8: {}",
+            opts::describe_parse(case.opts),
+            text::show(input),
+            bad_at,
+            run.steps.iter().take(4).map(|s| show_res(&s.res)).collect::<Vec<_>>().join(", ")
+        ),
+    );
+}
+
 fn check_any(case: &HistCase, input: &[u8], mon: &mut Mon) {
     let benign = match &case.source {
         Source::Stream(p) => p.faults.is_empty(),
@@ -684,6 +767,7 @@ fn check_any(case: &HistCase, input: &[u8], mon: &mut Mon) {
     if run.abnormal {
         return;
     }
+    check_rejection(case, input, mon);
     {
         // shape of the history: source, how it started, how it ended, whether the
         // text holds multi-byte or ill-formed sequences
